@@ -213,6 +213,7 @@ let run (ops : 'i idx_ops) (dump_index : 'i -> unit) (check_inv : params -> 'i s
   let at_remove = ref false in
   let backups : (string, 'i disk) Hashtbl.t = Hashtbl.create 7 in
   let saved : (string, 'i st) Hashtbl.t = Hashtbl.create 7 in
+  let iters : (string, dbiter) Hashtbl.t = Hashtbl.create 7 in
   let plans : (string, ((n * n) * n option) list * dseg list) Hashtbl.t = Hashtbl.create 7 in
   let step (f : 'i st -> 'i st * out) (cmd : string) =
     let s0 = clear_trace !st in
@@ -229,7 +230,7 @@ let run (ops : 'i idx_ops) (dump_index : 'i -> unit) (check_inv : params -> 'i s
     | "#" :: _ -> ()
     | ["reset"] ->
         st := { s_mem = None; s_disk = disk0; s_trace = [] }; pre := disk0; last_trace := [];
-        cursor := None; at_remove := false; Hashtbl.reset backups; Hashtbl.reset saved; Hashtbl.reset plans
+        cursor := None; at_remove := false; Hashtbl.reset iters; Hashtbl.reset backups; Hashtbl.reset saved; Hashtbl.reset plans
     | ["params"; a; b; c; d] ->
         params := mk_params (int_of_string a) (int_of_string b) (int_of_string c) (d = "1")
     | ["open"; seed] -> step (db_open ops !params (n_of_int (int_of_string seed))) "open"
@@ -289,6 +290,13 @@ let run (ops : 'i idx_ops) (dump_index : 'i -> unit) (check_inv : params -> 'i s
                   end else begin
                     apply s1 c1; print_string "cstep more\n"
                   end))
+    | ["iternew"; name] -> Hashtbl.replace iters name dbiter0; print_string "iternew ok\n"
+    | ["iternext"; name] ->
+        (match dbiter_step ops !st (Hashtbl.find iters name) with
+         | None -> print_string "iternext MODEL-BROKEN\n"
+         | Some (it', None) -> Hashtbl.replace iters name it'; print_string "iternext done\n"
+         | Some (it', Some (k, v)) -> Hashtbl.replace iters name it';
+             Printf.printf "iternext %s %s\n" (hex_of_bytes k) (hex_of_bytes v))
     | ["dump"] -> dump_state ops !st
     | ["dumprecs"] -> dump_recs !st
     | ["checkinv"] ->
